@@ -30,7 +30,8 @@ import (
 type Rewards struct {
 	Fraction string
 	Period   int64
-	Dup      bool // the consumer's reward-denom list names the fee denom twice (parameter validation allows it)
+	Dup      bool   // the consumer's reward-denom list names the fee denom twice (parameter validation allows it)
+	Cap      uint32 // validators-power-cap of the consumer (0 = none)
 }
 
 func (c Rewards) Name() string { return "rewards" }
@@ -39,6 +40,9 @@ func (c Rewards) Params() map[string]any {
 	if c.Dup {
 		m["Dup"] = true
 	}
+	if c.Cap > 0 {
+		m["Cap"] = c.Cap
+	}
 	return m
 }
 
@@ -46,10 +50,33 @@ type rwNode struct {
 	*XNode
 	InFlight int64 // base units of the reward denom escrowed on the consumer and not yet minted on the provider
 	Closed   bool
+	// Join is the harness's own ledger of when validator i entered consumer 0's validator set (block
+	// height, 0 = not a member), kept from observed membership changes: eligibility for rewards is judged
+	// against it, not against the join height the provider stores
+	Join [4]int64
 }
 
 func (n *rwNode) clone() *rwNode {
-	return &rwNode{XNode: n.XNode.Clone(), InFlight: n.InFlight, Closed: n.Closed}
+	return &rwNode{XNode: n.XNode.Clone(), InFlight: n.InFlight, Closed: n.Closed, Join: n.Join}
+}
+
+// observeJoins updates the ledger from the stored set: a validator seen for the first time joined at
+// height h; one no longer in the set starts over when it comes back.
+func (w *rwWorker) observeJoins(n *rwNode, ctx sdk.Context, h int64) {
+	set, _ := w.p.K.GetConsumerValSet(ctx, "0")
+	for i, v := range w.p.Vals[:4] {
+		in := false
+		for _, cv := range set {
+			if sdk.ConsAddress(cv.ProviderConsAddr).Equals(v.ConsAddr()) {
+				in = true
+			}
+		}
+		if !in {
+			n.Join[i] = 0
+		} else if n.Join[i] == 0 {
+			n.Join[i] = h
+		}
+	}
 }
 
 type rwWorker struct {
@@ -100,7 +127,11 @@ func (c Rewards) NewWorker(stats *engine.Stats) (engine.Worker, error) {
 		return nil
 	}
 	ci := env.ConsumerInit{Spawn: st.Time(), Fraction: c.Fraction, BlocksPerTx: c.Period}
-	if err := must(&st, env.MsgCreateConsumer(A, "cons-r", ci.Params("cons-r"), nil)); err != nil {
+	var ps0 *providertypes.PowerShapingParameters
+	if c.Cap > 0 {
+		ps0 = &providertypes.PowerShapingParameters{ValidatorsPowerCap: c.Cap}
+	}
+	if err := must(&st, env.MsgCreateConsumer(A, "cons-r", ci.Params("cons-r"), ps0)); err != nil {
 		return nil, err
 	}
 	for _, vi := range []int{0, 1, 2} { // v3 joins later (event): not yet eligible when it does
@@ -122,6 +153,8 @@ func (c Rewards) NewWorker(stats *engine.Stats) (engine.Worker, error) {
 	if r := xw.PBlock(n.XNode, 0, nil); r.Halt() != "" {
 		return nil, fmt.Errorf("prefix block: %s", r.Halt())
 	}
+	// the launch-time validators joined in the block whose BeginBlock launched the consumer
+	w.observeJoins(n, n.P.Ctx, n.P.Height())
 	if _, err := xw.Boot(n.XNode, "0"); err != nil {
 		return nil, fmt.Errorf("boot: %w", err)
 	}
@@ -138,9 +171,11 @@ func (c Rewards) NewWorker(stats *engine.Stats) (engine.Worker, error) {
 	}
 	// a few provider blocks so that v0, v1 are past the eligibility delay
 	for i := 0; i < 3; i++ {
+		h := n.P.Height()
 		if r := xw.PBlock(n.XNode, 0, nil); r.Halt() != "" {
 			return nil, fmt.Errorf("prefix block: %s", r.Halt())
 		}
+		w.observeJoins(n, n.P.Ctx, h)
 	}
 	n.touchP()
 	other := sdk.NewCoins(sdk.NewInt64Coin(w.ibcD, 55))
@@ -171,7 +206,7 @@ func (w *rwWorker) Apply(n engine.Node, ev string) (engine.Node, []V) {
 }
 func (w *rwWorker) Hash(n engine.Node) [32]byte {
 	x := n.(*rwNode)
-	h := w.w.hashNode(x.XNode, fmt.Sprint(x.InFlight, x.Closed))
+	h := w.w.hashNode(x.XNode, fmt.Sprint(x.InFlight, x.Closed, x.Join))
 	a := x.P.HashStores("bank", "distribution")
 	b := x.C["0"].HashStores("bank")
 	return mix(h, string(a[:])+string(b[:]))
@@ -223,7 +258,9 @@ func (w *rwWorker) build() {
 		x := n.(*rwNode)
 		c := x.clone()
 		before := len(c.L["0"].XC2P.Packets)
+		hEnded := c.P.Height()
 		pr, crs := w.w.Wait(c.XNode, time.Hour+time.Second, true)
+		w.observeJoins(c, c.P.Ctx, hEnded)
 		vs := haltViolation("provider", pr)
 		for _, r := range crs {
 			vs = append(vs, haltViolation("consumer", r)...)
@@ -549,6 +586,7 @@ func (w *rwWorker) pblock(x *rwNode) (engine.Node, []V) {
 		allowed = has(ds, w.ibcD) || p.K.ConsumerRewardDenomExists(s.Ctx, w.ibcD)
 		need := p.K.GetNumberOfEpochsToStartReceivingRewards(s.Ctx) * p.K.GetBlocksPerEpoch(s.Ctx)
 		set, _ := p.K.GetConsumerValSet(s.Ctx, "0")
+		w.observeJoins(c, s.Ctx, s.Height())
 		for i, v := range p.Vals[:4] {
 			vals[i].rate = math.LegacyNewDecWithPrec(1, 1) // validators' own commission rate in the fixture
 			if cr, found := p.K.GetConsumerCommissionRate(s.Ctx, "0", v.PAddr()); found {
@@ -557,7 +595,10 @@ func (w *rwWorker) pblock(x *rwNode) (engine.Node, []V) {
 			for _, cv := range set {
 				if sdk.ConsAddress(cv.ProviderConsAddr).Equals(v.ConsAddr()) {
 					vals[i].inSet, vals[i].power = true, cv.Power
-					vals[i].eligible = (s.Height()+1)-cv.JoinHeight >= need
+					vals[i].eligible = (s.Height()+1)-c.Join[i] >= need
+					if cv.JoinHeight != c.Join[i] {
+						w.stats.Count("stored-join-height-differs-from-observed")
+					}
 				}
 			}
 		}
